@@ -12,7 +12,7 @@ from vf.props.c07 import apply_edit
 
 ID = "C06"
 LEVEL = "exploration"
-TECHNIQUE = "Hypothesis-generated create (tree x version x options x route) followed by generated edit sequences; the raw bytes after every write go through a strict canonical bencode decoder and a per-version structure check"
+TECHNIQUE = "Hypothesis-generated create (tree x version x options x route) followed by generated edit sequences; the raw bytes after every write go through a strict canonical bencode decoder and a per-version structure check ; thorough tier adds a coverage-guided (atheris/libFuzzer) stage over the same strategy"
 RULE = ("Cases: tree (1..6 files, several larger than the piece length so piece-layer key order is observable) x creator (all five "
         "classes; CLI for TorrentFile/TorrentAssembler) x options (trackers, web/http seeds, comment, source, private) followed by "
         "0..5 edit requests (library or CLI). After each write: keys unique and strictly ascending as raw bytes at every nesting "
